@@ -206,10 +206,9 @@ func Accept(req []byte, kt []KeytabEntry, s Settings, now time.Time, replay map[
 	}
 	if len(etp.CAddr) > 0 {
 		if s.ClientAddr == nil {
-			// RFC 4120 says reject when the sender's address is not in caddr; the property speaks of
-			// configured address requirements only: not judged
-			v.DontCare = true
-			rej("caddr-unconfigured: ticket has caddr but no client address configured (not judged)")
+			// RFC 4120 3.2.3: the sender's address must be among the ticket's addresses; a service that was not told the
+			// sender's address cannot establish that, so the address-restricted ticket is not acceptable
+			rej("caddr-unverifiable: KRB_AP_ERR_BADADDR ticket is restricted to addresses but no client address is known to the service")
 		} else {
 			match := false
 			for _, a := range etp.CAddr {
